@@ -508,6 +508,27 @@ fn run_randomness_values(cx: &mut CaseCx, case: &Value) {
   let mut padded = [0u8; 32];
   padded[..meas.len().min(32)].copy_from_slice(&meas[..meas.len().min(32)]);
   vals.push(("the measurement's first 32 bytes".into(), padded));
+  // inputs that alias the labels the derivations use internally: (measurement, epoch, aux) = labels
+  for (lm, le, la) in [("star_encrypt", "star_derive_ske_key", "star_sample_local"), ("star_sample_local", "star_sample_local", "star_encrypt"), ("adss encrypt", "random coins", "adss encrypt")] {
+    let (lm, le) = (lm.as_bytes().to_vec(), le.as_bytes().to_vec());
+    let rnd = local_randomness(&lm, &le, t);
+    let n = t as usize + 1;
+    let mut msgs = vec![];
+    for i in 0..n {
+      getrandom::verif::set_group(300 + i as u32);
+      if let Ok(m) = gen_report(&lm, &le, t, &rnd, &Some(la.as_bytes().to_vec())) {
+        msgs.push(m);
+      }
+    }
+    let shares: Vec<sta_rs::Share> = msgs.iter().take(t as usize).map(|m| m.share.clone()).collect();
+    cx.eval();
+    let ok = msgs.len() == n && matches!(recover_msg(&shares), Ok(Ok(r0)) if msgs.iter().all(|m| matches!(open_report(m, &r0, &le), Ok((mm, Some(aa))) if mm == lm && aa == la.as_bytes())));
+    if !ok {
+      cx.viol("C01/label-valued-inputs", format!("measurement {:?}, epoch {:?}, associated data {:?} (values equal to labels the derivations use internally), t={}: reports do not recover and open to their inputs", String::from_utf8_lossy(&lm), String::from_utf8_lossy(&le), la, t), json!({"t": t}));
+      return;
+    }
+    cx.count("ok_recoveries", 1);
+  }
   let auxa = aux_alphabet();
   let mut tags: Vec<Vec<u8>> = vec![];
   for (name, rnd) in vals.iter() {
